@@ -160,8 +160,16 @@ class K:
             cb = self.ctx.facts.body(x[1]) if self.ctx is not None else None
             if cb is not None and depth < 20:
                 ev2, r2 = self.ctx.eval(cb, no_inline=NOINLINE)
-                return ("closure", repr(K(r2, cb, self.ctx).t(r2.ret, depth + 1)), tuple(self.t(u, depth + 1) for u in x[2]))
+                ret = term_map(r2.ret, lambda y: ("arg", y[1] - 1) if tag(y) == "param" and y[1] >= 1 else None)      # arguments by position, not by name
+                return ("closure", repr(K(r2, cb, self.ctx).t(ret, depth + 1)), tuple(self.t(u, depth + 1) for u in x[2]))
             return ("closure", re.sub(r"\b(un)?sync::", "", x[1]))
+        if tg == "fn" and self.ctx is not None and depth < 20:
+            # a small function used as a value (`find_position(n, O::goes_before)`) is what it computes, like a closure without captures
+            fb = self.ctx.facts.body(x[1].split("::<")[0])
+            if fb is not None and len(fb.blocks) <= 3:
+                ev2, r2 = self.ctx.eval(fb, no_inline=NOINLINE)
+                ret = term_map(r2.ret, lambda y: ("arg", y[1]) if tag(y) == "param" else None)
+                return ("closure", repr(K(r2, fb, self.ctx).t(ret, depth + 1)), ())
         return tuple(self.t(y, depth + 1) if isinstance(y, (tuple, Lin)) else (re.sub(r"\b(un)?sync::", "", y) if isinstance(y, str) else y) for y in x)
 
     def pe(self, p, depth):
